@@ -553,3 +553,51 @@ pub fn c08_ins_rank_opt_pct_n3() {
 pub fn c08_ins_rank_f64_plain_rev_n3() {
     c08_rank_body!(f64, 3, 4, false, true)
 }
+
+// ---------------------------------------------------------------------------------------------
+// encoding independence of a two-series rolling function (pairwise deletion) — added after seeded change C08-m4
+// ---------------------------------------------------------------------------------------------
+
+/// `ts_vcov` of two series in the NaN encoding (f64 output) and in the None encoding (Option<f64> output): same nulls, same
+/// values. The window is shorter than the series so that pairs expire (an expiring pair with a null on one side only is the
+/// interesting case).
+pub fn enc_input_vcov<const N: usize>(fl: &mut EFl) -> bool {
+    // fixed distinct values, symbolic null masks: which pairs are complete is what the law is about, and symbolic float
+    // values make CBMC solve two full rolling covariances (580 s at N = 3, and no time left for the playback run)
+    let mut k1 = [None; N];
+    let mut k2 = [None; N];
+    let mut i = 0;
+    while i < N {
+        if kani::any() {
+            k1[i] = Some(i as i32 + 1);
+        }
+        if kani::any() {
+            k2[i] = Some(2 * (i as i32) * (i as i32) - 3);
+        }
+        i += 1;
+    }
+    enc_witness(&k1, fl);
+    let w: usize = kani::any();
+    kani::assume(w >= 1 && w < N);
+    let m: usize = kani::any();
+    kani::assume(m <= 2);
+    let mp = Some(m);
+    let (x1, y1): (Vec<f64>, Vec<Option<f64>>) = (to_vec(&k1), to_vec(&k1));
+    let (x2, y2): (Vec<f64>, Vec<Option<f64>>) = (to_vec(&k2), to_vec(&k2));
+    let a: Vec<f64> = x1.ts_vcov(&x2, w, mp);
+    let b: Vec<Option<f64>> = y1.ts_vcov(&y2, w, mp);
+    assert!(same_out::<N>(&a, &b, fl), "ts_vcov agrees between NaN input / f64 output and None input / Option<f64> output");
+    // witness: the pair leaving the window at the last step is valid in the first series and null in the second
+    N >= 2 && w + 1 <= N && k1[N - 1 - w].is_some() && k2[N - 1 - w].is_none()
+}
+
+#[kani::proof]
+#[kani::stub(std::fmt::format, crate::util::fmt_stub)]
+#[kani::unwind(5)]
+pub fn c08_enc_input_vcov_n3() {
+    let mut fl = EFl::default();
+    let one_sided = enc_input_vcov::<3>(&mut fl);
+    kani::cover!(one_sided, "a pair with a null in the second series only leaves the window");
+    kani::cover!(fl.value_out, "a non-null covariance");
+    kani::cover!(fl.null_out, "a null covariance");
+}
